@@ -80,6 +80,8 @@ func clip(s string) string {
 }
 
 func check(t ev.TB, test string, p payload, classes []string) {
+	ev.InFlight(test, p)
+	defer ev.InFlightDone()
 	var log []tengo.VerifDCERecord
 	opt, e1 := compileWith(false, p, &log)
 	raw, e2 := compileWith(true, p, nil)
